@@ -15,6 +15,7 @@ const (
 	HkRenderer
 	HkStatic
 	HkToken
+	HkReqLogger // maps a request-scoped *log.Logger with its own sink (placed in front of Logger)
 )
 
 // HSpec is one handler of the set-up program.
@@ -134,6 +135,7 @@ type Profile struct {
 	SvcPm        int
 	EnvLatePm    int
 	WrapperPm    int
+	ReqLoggerPm  int // given Logger: a middleware in front of it maps a request-scoped logger
 	TwinMethodPm int // a route gets a sibling registration of the same path for another method, with its own handlers
 	GroupPm      int
 	ActionPm     int
@@ -209,6 +211,9 @@ func GenSetup(g *tape.Stream, p *Profile) *Setup {
 	wantRecovery := p.RecoveryMust || g.Chance(p.RecoveryPm)
 	// Built-ins first, in flamego.Classic order, then the token mapper.
 	if g.Chance(p.LoggerPm) {
+		if g.Chance(p.ReqLoggerPm) {
+			s.Mw = append(s.Mw, HSpec{Kind: HkReqLogger})
+		}
 		s.Mw = append(s.Mw, HSpec{Kind: HkLogger})
 	}
 	recoveryLevel := 0 // 0 app-level early, 1 app-level among sims, 2 group, 3 route
@@ -456,6 +461,8 @@ func (s *Setup) Describe() []string {
 				p = append(p, "Static")
 			case HkToken:
 				p = append(p, "token")
+			case HkReqLogger:
+				p = append(p, "request-logger")
 			}
 		}
 		return strings.Join(p, ",")
